@@ -264,4 +264,9 @@ def rules_c18(ctx):
         if o.arm == 'G11:c-create':
             o.rule = 'EXC-BOUNDARY'
             out.append(o)
+        elif o.arm == 'G1:build-sentinel':
+            # PGMWrapper does not run PGMIndex's range constructor, it calls build() itself (rule_wrapper_ctor): the exception that
+            # *_create turns into NULL for a reserved last key is the one thrown inside build()
+            o.rule = 'EXC-BOUNDARY'
+            out.append(o)
     return out
